@@ -235,36 +235,16 @@ func c15Classes(c *Ctx) {
 	}
 	reg := fi.Iteration(topicLoop)
 	stored := MapUpdateOn(FieldLoad(cMeta))
-	// named results are spilled to cells because of the deferred unlock
-	// the two results (retry bool, err error) are spilled to cells because of the deferred unlock: take the cells
-	// from a return instruction, whatever the results are called
-	var retryCell, errCell ssa.Value
-	for _, b := range fn.Blocks {
-		if r, ok := lastInstr(b).(*ssa.Return); ok && !IsRecoverBlock(b) && len(r.Results) == 2 {
-			if u, ok := r.Results[0].(*ssa.UnOp); ok {
-				if al, ok := u.X.(*ssa.Alloc); ok {
-					retryCell = al
-				}
-			}
-			if u, ok := r.Results[1].(*ssa.UnOp); ok {
-				if al, ok := u.X.(*ssa.Alloc); ok {
-					errCell = al
-				}
-			}
-		}
-	}
-	if retryCell == nil || errCell == nil {
-		c.Unresolved(rule, "named results retry/err of updateMetadata")
+	// the two results (retry, err), whatever they are called: named results live in cells (the function defers the
+	// unlock); locals returned at the end are values the topic loop carries from one iteration to the next
+	retryVar, okR := resultVarOf(fn, 0, 2, topicLoop)
+	errVar, okE := resultVarOf(fn, 1, 2, topicLoop)
+	if !okR || !okE {
+		c.Unresolved(rule, "results retry/err of updateMetadata (neither a result cell nor a local carried by the topic loop)")
 		return
 	}
-	setRetry := func(it Item) bool {
-		st, ok := it.In.(*ssa.Store)
-		return ok && st.Addr == retryCell && ConstBool(true)(st.Val)
-	}
-	setErr := func(it Item) bool {
-		st, ok := it.In.(*ssa.Store)
-		return ok && st.Addr == errCell && terr(strip(st.Val))
-	}
+	isTrue := func(v ssa.Value) bool { return ConstBool(true)(v) }
+	isTopicErr := func(v ssa.Value) bool { return terr(strip(v)) }
 	// first case test
 	var firstTest *ssa.BasicBlock
 	for _, b := range fn.Blocks {
@@ -300,21 +280,30 @@ func c15Classes(c *Ctx) {
 		return key, want{-2, 0, 0}
 	}
 	check := func(name string, sub *Region, w want, at ssa.Instruction) {
-		eff := func(ev Ev, wv int, what string) string {
+		verdict := func(always, sometimes bool, wv int, what string) string {
 			switch wv {
 			case 1:
-				if esc, _ := sub.Escape(ev); esc {
+				if !always {
 					return what + " not on every path"
 				}
 			case 0:
-				if it, _ := sub.Reach(ev, nil); !it.IsZero() {
+				if sometimes {
 					return what + " although the class forbids it"
 				}
 			}
 			return ""
 		}
+		eff := func(ev Ev, wv int, what string) string {
+			esc, _ := sub.Escape(ev)
+			it, _ := sub.Reach(ev, nil)
+			return verdict(!esc, !it.IsZero(), wv, what)
+		}
+		effVar := func(rv resultVar, isSet func(ssa.Value) bool, wv int, what string) string {
+			a, s := rv.assigned(sub, isSet)
+			return verdict(a, s, wv, what)
+		}
 		var bad []string
-		for _, s := range []string{eff(stored, w.stored, "metadata stored"), eff(setRetry, w.retry, "retry requested"), eff(setErr, w.err, "error reported")} {
+		for _, s := range []string{eff(stored, w.stored, "metadata stored"), effVar(retryVar, isTrue, w.retry, "retry requested"), effVar(errVar, isTopicErr, w.err, "error reported")} {
 			if s != "" {
 				bad = append(bad, s)
 			}
